@@ -156,6 +156,13 @@ func (f *Flat) inline(stack map[string]bool, depth int) {
 		}
 		callee := f.P.staticCallee(f.Pkg, call)
 		if callee == nil {
+			// a function literal called on the spot (the row of an unrolled table: func() error {...}())
+			if lit, ok := ast.Unparen(call.Fun).(*ast.FuncLit); ok {
+				sig, _ := f.Pkg.TypesInfo.Types[lit].Type.(*types.Signature)
+				callee = &FuncInfo{Key: "lit@" + f.P.pos(lit), Pkg: f.Pkg, Lit: lit, LitSig: sig}
+			}
+		}
+		if callee == nil {
 			// a call of a function-typed parameter that an enclosing splice bound to a function literal:
 			// r.write(func(s) {...}) with write's "return fn(r.storage)"
 			if o := objOf(f.Pkg.TypesInfo, call.Fun); o != nil && f.Alias != nil {
